@@ -240,13 +240,17 @@ def load_many(lit: LineIterator) -> Iterator[dict]:
     """Do not edit this docstring. It will be overwritten."""
     # XYZ Trajectory files are a simple concatenation of individual XYZ files,'
     # making it trivial to load many frames.
-    try:
-        while True:
-            # Check for and skip empty lines at the end of file
+    while True:
+        # Skip empty lines. When only empty lines are left, the end of the file is reached.
+        try:
             line = next(lit)
-            if line.strip() == "":
-                return
-            lit.back(line)
-            yield load_one(lit)
-    except StopIteration:
-        return
+            while line.strip() == "":
+                line = next(lit)
+        except StopIteration:
+            return
+        lit.back(line)
+        try:
+            data = load_one(lit)
+        except StopIteration as exc:
+            raise LoadError("File ended in the middle of a frame.", lit) from exc
+        yield data
